@@ -731,6 +731,10 @@ class Interp:
             return self.eval_const(val if re.search(r'_[ui]\d|_[ui]size|f64$|^true$|^false$', val) else val, st)
         if len({v_ for _k, v_ in hits}) == 1 and hits:
             return self.eval_const(hits[0][1][1], st)
+        # associated constant of an impl block (`Type::<..>::NAME`): the dump names it `<impl at file:line>::NAME`
+        hits = [(k_, v_) for k_, v_ in _mir.SIMPLE_CONSTS.items() if k_.split('::')[-1] == key]
+        if hits and len({v_ for _k, v_ in hits}) == 1:
+            return self.eval_const(hits[0][1][1], st)
         # crate constant with a body (`const NAME: TY = { .. }`, parsed as the nullary function `const NAME`)
         bodies = [n for n in self.funcs if n.startswith('const ') and n.split('::')[-1] == key]
         if len(bodies) > 1 and len(t.split('::')) >= 2:
